@@ -27,10 +27,16 @@ Rules0 == << RuleT(PC(<<>>), Lf("dtype", "equal_to", TypeV(TDict)), <<>>),      
              RuleT(PC(<<>>), Lf("length", "greater_than", I(0)), <<>>),                     \* T1: the empty-path rule
              RuleT(PC(<<Coerce(Sb)>>), Lf("none", "greater_than", I(2)), << <<TStr, "int">> >>),   \* T1 (cast)
              RuleT(PN(<<AnyList>>), Lf("dtype", "equal_to", TypeV(TInt)), <<>>),            \* T2
-             RuleT(PC(<<Coerce(I(0))>>), Lf("none", "less_than", I(5)), <<>>) >>            \* S2
-Schemas0 == << <<1, 2>>, <<6>>, <<3, 4>>, <<5>> >>        \* S1, S2, T1, T2
+             RuleT(PC(<<Coerce(I(0))>>), Lf("none", "less_than", I(5)), <<>>),              \* S2
+             \* T1: two more cast rules: (a, b) str -> int, and a rule whose fan-out part selects the mappings holding
+             \* b = "3" - the value the other rule rewrites - and casts their `a`.  Casts are selected on the document as
+             \* given, not on the copy being rewritten: the `a` is cast whatever the order of the rules.
+             RuleT(PC(<<Coerce(Sa), Coerce(Sb)>>), Lf("none", "greater_than", I(2)), << <<TStr, "int">> >>),
+             RuleT(PN(<<Part("map", Leaf("value", "none", "items_contain", <<>>, <<Kw("b", <<98>>, S3)>>), Null, Null, None),
+                        Coerce(Sa)>>), Lf("none", "less_than", I(5)), << <<TStr, "int">> >>) >>
+Schemas0 == << <<1, 2>>, <<6>>, <<3, 4, 7, 8>>, <<5>> >>  \* S1, S2, T1, T2
 Roots == << PC(<<Coerce(Sa)>>), PC(<<Coerce(Sa), Coerce(Sb)>>), PN(<<AnyMap>>) >>
-Docs == << MapV(<< <<Sa, MapV(<< <<Sb, S3>>, <<Sa, I(1)>> >>)>>, <<Sb, I(7)>> >>),
+Docs == << MapV(<< <<Sa, MapV(<< <<Sb, S3>>, <<Sa, StrV(<<55>>)>> >>)>>, <<Sb, I(7)>> >>),
            MapV(<< <<Sa, ListV(<<I(1), Sa>>)>>, <<Sb, ListV(<<I(9)>>)>> >>),
            MapV(<< <<Sa, MapV(<< <<Sb, MapV(<< <<Sb, I(1)>> >>)>> >>)>> >>),
            ListV(<<I(1), MapV(<< <<Sb, I(9)>> >>)>>),
